@@ -4,7 +4,7 @@ import itertools
 from . import core, engine
 from .core import hexs
 
-THEOREMS = ["C12_escape_roundtrip_default", "C12_escape_roundtrip_python", "C12_escape_borrow", "C12_check_sound", "C12_verbatim", "C12_no_reference_identity", "C12_doubled", "C12_braced", "C12_bare_longest", "C12_python_named", "C12_python_number", "C12_python_stray", "C12_default_stray", "C12_named_number", "C12_number_in_range", "C12_number_absent"]
+THEOREMS = ["C12_escape_roundtrip_default", "C12_escape_roundtrip_python", "C12_escape_borrow", "C12_check_sound", "C12_verbatim", "C12_no_reference_identity", "C12_doubled", "C12_braced", "C12_bare_longest", "C12_python_named", "C12_python_number", "C12_python_stray", "C12_default_stray", "C12_named_number", "C12_number_in_range", "C12_number_absent", "C12_check_complete"]
 SYMS = ["$", "{", "}", "\\", "g", "<", ">", "0", "1", "9", "x", "_", "é", " ", "-", "n"]
 SETUPS = [
     ("(?<x>a)(b)?(?<_9>c)?(?<n>é)", "acé"),
